@@ -995,6 +995,20 @@ def pending_wildcards(unexpanded, new_packages):
     return [p for p, t in unexpanded if t.split(".")[0] in new_packages or p.split(".")[0] in new_packages]
 
 
+def indirect_wildcards(loader, unexpanded):
+    """The unexpanded wildcard imports whose target path does not (yet) lead, object by object, to a module of the tree:
+    it runs through an alias, or through a name that is not there (another wildcard import may provide it)."""
+    out = []
+    for path, target in unexpanded:
+        o = loader.modules_collection
+        for part in target.split("."):
+            o = o.members.get(part) if not getattr(o, "is_alias", False) else None
+            if o is None or o.is_alias:
+                out.append(path)
+                break
+    return out
+
+
 def shape(loader):
     """structure() without the stored links (dereferencing between two calls stores links lazily)."""
     coll, nodes = structure(loader)
@@ -1158,7 +1172,8 @@ def run_external(ctx, files, loads, external, label, _retry=False, implicit=True
         unexp = unexpanded_wildcards(loader)
         calls.append({"unresolved": sorted(r[1][0]), "iterations": r[1][1], "state": snap.state(), "collection": now,
                       "structure": structure(loader), "shape": shape(loader), "unexpanded": [p for p, _ in unexp],
-                      "pending": pending_wildcards(unexp, set(now) - set(packages)), "leaked": leaked_wildcards(loader)})
+                      "pending": pending_wildcards(unexp, set(now) - set(packages)), "leaked": leaked_wildcards(loader),
+                      "indirect": indirect_wildcards(loader, unexp)})
         packages = now
         if k == 1:
             for i in snap.alias_ids():
@@ -1191,6 +1206,10 @@ def run_external(ctx, files, loads, external, label, _retry=False, implicit=True
         C06-F8: a re-imported wildcard pseudo-member is there, whose target path grows at every call."""
         if any(p not in b["unexpanded"] for p in a["pending"]):
             return "C06-F7"
+        # C06-F10: a wildcard import whose target path ran through an alias / a name provided by another wildcard import
+        # was still standing after call a and is expanded by call b, nothing else differing (no package loaded)
+        if a["collection"] == b["collection"] and any(p not in b["unexpanded"] for p in a["indirect"]):
+            return "C06-F10"
         return "C06-F8" if a["leaked"] else None
 
     if not same(calls[0], calls[1]) or calls[1]["iterations"] > 2:
